@@ -35,7 +35,16 @@ def u32(v):
 # FSM by subset construction
 # ------------------------------------------------------------------------------------------------
 def build_fsm(rules, classes, nglyphs):
-    """rules: list of dicts with 'ctx' (class ids). Returns dict(cols, ranges, trans, nstates, ntrans, nsuccess, rulemap)."""
+    """rules: list of dicts with 'ctx' (class ids) and 'pre'. Returns dict(cols, ranges, trans, nstates, ntrans, nsuccess,
+    rulemap, starts).  Rules with a shorter pre-context than the longest of the pass are padded in front with a class
+    of all glyphs (as the GDL compiler does); starts[k] is the state from which matching begins when k fewer
+    pre-context slots are available."""
+    maxpre = max([r.get("pre", 0) for r in rules] or [0])
+    minpre = min([r.get("pre", 0) for r in rules] or [0])
+    if maxpre != minpre:
+        classes = list(classes) + [set(range(nglyphs))]
+        ANY = len(classes) - 1
+        rules = [dict(r, ctx=[ANY] * (maxpre - r.get("pre", 0)) + list(r["ctx"])) for r in rules]
     used = sorted({c for r in rules for c in r["ctx"]})
     sig = {}
     for g in range(nglyphs):
@@ -51,6 +60,15 @@ def build_fsm(rules, classes, nglyphs):
     trans = {}
     accept = {}
     work = [start]
+    # start states for reduced pre-context: the rules whose first k items are padding, k items consumed
+    start_sets = [start]
+    for k in range(1, maxpre - minpre + 1):
+        S = frozenset((ri, k) for ri, r in enumerate(rules) if maxpre - r.get("pre", 0) >= k)
+        start_sets.append(S)
+        if S not in states:
+            states[S] = len(order)
+            order.append(S)
+            work.append(S)
     while work:
         S = work.pop(0)
         row = []
@@ -99,7 +117,7 @@ def build_fsm(rules, classes, nglyphs):
         else:
             g += 1
     return {"ncols": ncols, "ranges": ranges, "trans": table, "nstates": len(final), "ntrans": ntrans,
-            "nsuccess": nsuccess, "rulemap": rulemap}
+            "nsuccess": nsuccess, "rulemap": rulemap, "starts": [idx[S] for S in start_sets]}
 
 
 # ------------------------------------------------------------------------------------------------
@@ -132,7 +150,7 @@ def build_pass(p, classes, nglyphs, sub_base):
     orm += u16(off)
     body += orm + rm
     body += u8(minpre) + u8(maxpre)
-    starts = p.get("starts") or [0] * (maxpre - minpre + 1)
+    starts = p.get("starts") or fsm.get("starts") or [0] * (maxpre - minpre + 1)
     for s in starts:
         body += u16(s)
     for r in rules:
